@@ -9,7 +9,7 @@ impls never construct an outer Err; SpannedValue's span per meta form; WithOrigi
 of the item.  Not decided: equality of produced values."""
 import re
 
-from vlib import mir
+from vlib import resalg, mir
 from . import common
 
 META = dict(
@@ -71,9 +71,15 @@ def run(ctx):
                     ctx.ob("C12.G.absent-option-is-none", f.key, "return", rs == ["core::option::Option::Some{core::option::Option::None{}}"], "returns %s" % rs)
                 elif none_kind == "forward":
                     ctor = SMART.get(w, "core::result::Result::Ok")
-                    want = "core::option::Option::<T>::map(%s::from_none(), fn %s)" % (FM, ctor)
+                    # Some(v) of T's from_none becomes Some(ctor(v)), None stays None — as a case table,
+                    # so `.map(ctor)` and an explicit match read the same
+                    src = "%s::from_none()" % FM
+                    inner_v = "(%s as Some).0" % src
+                    wrapped = "core::result::Result::Ok{%s}" % inner_v if ctor.endswith("Result::Ok") else "%s(%s)" % (ctor, inner_v)
+                    want = sorted([(["is_some(%s)=True" % src], "core::option::Option::Some{%s}" % wrapped), (["is_some(%s)=False" % src], "core::option::Option::None{}")])
+                    got = sorted(resalg.cases(ctx, f))
                     calls = fwd_calls(ctx, f, "from_none", inner)
-                    ctx.ob("C12.F.absent-forwards", f.key, "T::from_none().map(ctor)", rs == [want] and len(calls) == 1, "returns %s" % rs)
+                    ctx.ob("C12.F.absent-forwards", f.key, "T::from_none().map(ctor)", got == want and len(calls) == 1, "cases %s" % got)
                 continue
             if w.endswith("Override<T>") and h == "from_word":
                 rs = ctx.ret_values(f)
@@ -90,9 +96,9 @@ def run(ctx):
             ctx.ob("C12.F.forwards-same-hook-same-node", f.key, "%s -> <%s>::%s" % (h, inner, h), ok, detail)
             # every return is built from the forwarded call
             fw = "%s::%s(a1)" % (FM, h)
-            rs = ctx.ret_values(f)
-            okr = bool(rs) and all(fw in e for e in rs)
-            ctx.ob("C12.F.returns-forwarded-result", f.key, "return provenance", okr, "returns %s" % [e[:140] for e in rs])
+            cs = resalg.cases(ctx, f)
+            okr = bool(cs) and all(fw in v or any(fw in a for a in conds) for conds, v in cs)
+            ctx.ob("C12.F.returns-forwarded-result", f.key, "return provenance", okr, "cases %s" % [(c, v[:140]) for c, v in cs])
             # unconditional: the forwarded call dominates every return
             if calls:
                 rets = [bb for bb in sorted(f.normal_blocks()) if f.term(bb)["k"] == "return"]
@@ -103,14 +109,18 @@ def run(ctx):
             f = ctx.fn("<%s as %s>::%s" % (w, FM, h), required=False)
             if not f or h == "from_none":
                 continue
-            errs = ctx.find_aggregates(f, r"^core::result::Result$", "Err") + ctx.find_calls(f, r"from_residual")
-            ctx.ob("C12.G.result-never-fails-outwardly", f.key, "no outer Err", not errs, "%d Err constructions / residual returns" % len(errs))
+            cs = resalg.cases(ctx, f)
+            bad = [(c, v[:120]) for c, v in cs if not v.startswith("core::result::Result::Ok{")]
+            ctx.ob("C12.G.result-never-fails-outwardly", f.key, "no outer Err", bool(cs) and not bad, "cases whose value is not Ok(..): %s" % bad)
     f = ctx.fn("<core::result::Result<T, syn::attr::Meta> as %s>::from_meta" % FM)
     if f:
-        cl = ctx.closures_of(f)
-        rs = [e for c in cl for _, e in ctx.ret_exprs(c)]
-        ok = len(rs) == 1 and re.match(r"^core::result::Result::Ok\{core::result::Result::Err\{.*clone\(\(?.*\)?\)\}\}$", rs[0]) is not None
-        ctx.ob("C12.G.result-meta-keeps-item", f.key, "or_else(|_| Ok(Err(item.clone())))", ok, "closure returns %s" % rs)
+        src = "%s::from_meta(a1)" % FM
+        cs = resalg.cases(ctx, f)
+        failing = [v for c, v in cs if "is_ok(%s)=False" % src in c]
+        ok = len(failing) == 1 and re.match(r"^core::result::Result::Ok\{core::result::Result::Err\{[^{}]*Clone for syn::attr::Meta>::clone\(a1\)\}\}$", failing[0]) is not None
+        ctx.ob("C12.G.result-meta-keeps-item", f.key, "T fails => Ok(Err(item.clone()))", ok, "cases %s" % cs)
+        passing = [v for c, v in cs if "is_ok(%s)=True" % src in c]
+        ctx.ob("C12.G.result-meta-keeps-value", f.key, "T succeeds => Ok(Ok(value))", passing == ["core::result::Result::Ok{core::result::Result::Ok{(%s as Ok).0}}" % src], "cases %s" % cs)
     f = ctx.fn("<darling_core::util::with_original::WithOriginal<T, syn::attr::Meta> as %s>::from_meta" % FM)
     if f:
         news = ctx.find_calls(f, r"WithOriginal::<T, O>::new$")
